@@ -409,6 +409,64 @@ struct Ev {
     with_ids: bool,
     /// a property whose value fails to format part-way (encoder-rejection section only)
     bad: Option<Bad>,
+    /// the event's properties are an `and_props` chain in which the routing keys occur AGAIN, later,
+    /// with other values; `kind` / `val` / `agg` above stay the FIRST (= effective) ones
+    shadow: Option<Shadow>,
+}
+
+/// What the later, shadowed `evt_kind` says.
+#[derive(Clone, Copy, Debug, PartialEq, Eq, Hash)]
+enum LaterC {
+    Span,
+    Metric,
+    Junk,
+}
+
+/// How the chain is built (always through the generic `emit<E: ToEvent>` of the Otlp emitter: the
+/// concrete `Event<And<..>>`, or a real runtime joining the event's props with an ambient frame).
+#[derive(Clone, Copy, Debug, PartialEq, Eq, Hash)]
+enum ChainC {
+    /// own (with the first values) `.and_props(` later duplicates `)`
+    OwnThenLater,
+    /// plain props `.and_props(` first values, then the duplicates, in ONE right member `)`
+    FirstOnlyInRight,
+    /// plain `.and_props(` first values `).and_props(` later duplicates `)`
+    ThreeMembers,
+    /// a runtime with a `ThreadLocalCtxt` frame holding the later duplicates; the event carries the first values
+    RuntimeAmbient,
+    /// the same runtime; the event itself is plain `.and_props(` first values `)`
+    RuntimeAmbientChain,
+}
+
+const LATERS: [LaterC; 3] = [LaterC::Span, LaterC::Metric, LaterC::Junk];
+const CHAINS: [ChainC; 5] = [ChainC::OwnThenLater, ChainC::FirstOnlyInRight, ChainC::ThreeMembers, ChainC::RuntimeAmbient, ChainC::RuntimeAmbientChain];
+/// first `evt_kind`s of the shadow walk: unreadable ones, then readable ones (typed and text)
+const SHADOW_FIRSTS: [KindC; 8] = [KindC::UnknownText, KindC::WrongTypeInt, KindC::WrongTypeBool, KindC::Null, KindC::SpanTyped, KindC::MetricTyped, KindC::SpanText, KindC::MetricString];
+const SHADOW_WALK: usize = SHADOW_FIRSTS.len() * LATERS.len() * CHAINS.len();
+
+#[derive(Clone, Copy, Debug, PartialEq, Eq, Hash)]
+struct Shadow {
+    later: LaterC,
+    chain: ChainC,
+}
+
+impl Shadow {
+    fn later_name(self) -> &'static str {
+        match self.later {
+            LaterC::Span => "span",
+            LaterC::Metric => "metric",
+            LaterC::Junk => "junk",
+        }
+    }
+    fn chain_name(self) -> &'static str {
+        match self.chain {
+            ChainC::OwnThenLater => "own-then-later",
+            ChainC::FirstOnlyInRight => "first-only-in-the-right-member",
+            ChainC::ThreeMembers => "three-members",
+            ChainC::RuntimeAmbient => "runtime-ambient-frame",
+            ChainC::RuntimeAmbientChain => "runtime-ambient-frame-behind-a-chain",
+        }
+    }
 }
 
 /// How the failing value is captured, where it sits among the properties, and whether the template
@@ -552,6 +610,7 @@ impl Ev {
             "unix_nanos_fit_u64": [a.map(|t| t.to_unix().as_nanos() <= u64::MAX as u128), Some(b.to_unix().as_nanos() <= u64::MAX as u128)]}));
         json!({"vid": self.vid, "kind": self.kind.name(), "extent": self.extent_name(), "extent_instants": instants, "metric_value": self.val.name(),
                "metric_agg": self.agg, "variant": self.variant, "with_trace_ids": self.with_ids,
+               "shadowed_duplicates": self.shadow.map(|s| json!({"later_evt_kind": s.later_name(), "chain": s.chain_name()})),
                "failing_value": self.bad.map(|b| format!("{}:{}:{}", b.cap.name(), ["first", "middle", "last"][b.pos as usize % 3], if b.hole { "hole" } else { "no-hole" }))})
     }
 }
@@ -706,7 +765,59 @@ fn emit_one(otlp: &emit_otlp::Otlp, ev: &Ev, st: &Store) {
         None => emit::Extent::point(end),
         Some(start) => emit::Extent::range(start..end),
     });
-    if ev.kind.is_ambient() {
+    if let Some(sh) = ev.shadow {
+        // the routing keys once more, LATER in the chain, with values that would route the event elsewhere
+        let mut later: Vec<(&str, Value)> = Vec::new();
+        later.push((
+            "evt_kind",
+            match (sh.later, v / 32 % 3) {
+                (LaterC::Span, 0) => Value::from_any(&st.kind_span),
+                (LaterC::Span, 1) => Value::from("span"),
+                (LaterC::Span, _) => st.owned[0].by_ref(),
+                (LaterC::Metric, 0) => Value::from_any(&st.kind_metric),
+                (LaterC::Metric, 1) => Value::from("metric"),
+                (LaterC::Metric, _) => st.owned[1].by_ref(),
+                (LaterC::Junk, 0) => Value::from("audit"),
+                (LaterC::Junk, 1) => Value::from(3),
+                (LaterC::Junk, _) => Value::from(true),
+            },
+        ));
+        if ev.val != ValC::Missing {
+            // numeric where the first is not, junk where it is
+            later.push(("metric_value", if ev.val.numeric() == Numeric::Yes { Value::from("shadowed junk") } else if v / 128 % 2 == 0 { Value::from(7) } else { Value::from_sval(&st.ints) }));
+        }
+        if let Some(a) = ev.agg {
+            later.push(("metric_agg", Value::from(if a == "count" { "last" } else { "count" })));
+        }
+        if ev.with_ids {
+            later.push(("trace_id", Value::from("0af7651916cd43dd8448eb211c80319c")));
+            later.push(("span_id", Value::from("b7ad6b7169203331")));
+        }
+        const ROUTING: [&str; 3] = ["evt_kind", "metric_value", "metric_agg"];
+        let plain: Vec<(&str, Value)> = props.iter().filter(|(k, _)| !ROUTING.contains(k)).map(|(k, v)| (*k, v.by_ref())).collect();
+        let first: Vec<(&str, Value)> = props.iter().filter(|(k, _)| ROUTING.contains(k)).map(|(k, v)| (*k, v.by_ref())).collect();
+        use emit::Props as _;
+        match sh.chain {
+            ChainC::OwnThenLater => otlp.emit(emit::Event::new(mdl, tpl, extent, (&props[..]).and_props(&later[..]))),
+            ChainC::FirstOnlyInRight => {
+                let right: Vec<(&str, Value)> = first.iter().chain(later.iter()).map(|(k, v)| (*k, v.by_ref())).collect();
+                otlp.emit(emit::Event::new(mdl, tpl, extent, (&plain[..]).and_props(&right[..])))
+            }
+            ChainC::ThreeMembers => otlp.emit(emit::Event::new(mdl, tpl, extent, (&plain[..]).and_props(&first[..]).and_props(&later[..]))),
+            ChainC::RuntimeAmbient | ChainC::RuntimeAmbientChain => {
+                // a real runtime: `emit_core::emit` joins the event's props with the current frame's
+                let rt = emit::runtime::Runtime::build(otlp, emit::Empty, &st.ctxt, emit::Empty, emit::Empty);
+                let frame = emit::Frame::push(&st.ctxt, &later[..]);
+                frame.call(|| {
+                    if sh.chain == ChainC::RuntimeAmbient {
+                        rt.emit(emit::Event::new(mdl, tpl, extent, &props[..]))
+                    } else {
+                        rt.emit(emit::Event::new(mdl, tpl, extent, (&plain[..]).and_props(&first[..])))
+                    }
+                });
+            }
+        }
+    } else if ev.kind.is_ambient() {
         // the kind travels through a context frame (buffered there as an owned value) and reaches the
         // emitter as an ambient property behind the event's own
         use emit::{Ctxt as _, Props as _};
@@ -733,6 +844,20 @@ fn gen_event(g: &mut Rng, vid: u64, k: u64) -> Ev {
         let far = FARS[j / (FAR_WALK_KINDS.len() * FAR_WALK_EXTENTS.len()) % FARS.len()];
         let val = if kind.is_metric() && g.chance(2, 3) { *g.pick(&[ValC::Int, ValC::Float, ValC::IntSeq, ValC::FloatSeq, ValC::BigInt]) } else { *g.pick(&VALS) };
         (kind, extent, far, val)
+    } else if k < (NEAR_WALK + FAR_WALK + SHADOW_WALK) as u64 {
+        // shadowed duplicates of the routing keys later in an `and_props` chain: first kind x later kind x chain shape
+        let j = k as usize - NEAR_WALK - FAR_WALK;
+        let kind = SHADOW_FIRSTS[j % SHADOW_FIRSTS.len()];
+        let later = LATERS[j / SHADOW_FIRSTS.len() % LATERS.len()];
+        let chain = CHAINS[j / (SHADOW_FIRSTS.len() * LATERS.len()) % CHAINS.len()];
+        // mostly the shape the LATER kind would need to be taken by its signal
+        let extent = if later == LaterC::Span || kind.is_span() || g.chance(1, 3) { *g.pick(&[ExtentC::Range, ExtentC::Range, ExtentC::EmptyRange, ExtentC::Point]) } else { *g.pick(&EXTENTS) };
+        let val = match g.below(4) {
+            0 => *g.pick(&[ValC::Text, ValC::Bool, ValC::Null, ValC::NestedSeq]),
+            1 | 2 => *g.pick(&[ValC::Int, ValC::Float, ValC::IntSeq, ValC::FloatSeq]),
+            _ => *g.pick(&VALS),
+        };
+        return Ev { vid, kind, extent, far: FarC::Near, val, agg: *g.pick(&AGGS), variant: g.next(), with_ids: g.chance(1, 3), bad: None, shadow: Some(Shadow { later, chain }) };
     } else {
         let kind = match g.below(10) {
             0..=3 => *g.pick(&KINDS[8..16]),
@@ -746,7 +871,15 @@ fn gen_event(g: &mut Rng, vid: u64, k: u64) -> Ev {
         let far = if extent != ExtentC::None && g.chance(1, 4) { *g.pick(&FARS) } else { FarC::Near };
         (kind, extent, far, val)
     };
-    Ev { vid, kind, extent, far, val, agg: *g.pick(&AGGS), variant: g.next(), with_ids: g.chance(1, 3), bad: None }
+    let mut ev = Ev { vid, kind, extent, far, val, agg: *g.pick(&AGGS), variant: g.next(), with_ids: g.chance(1, 3), bad: None, shadow: None };
+    // one drawn event in six carries shadowed duplicates (the kind must be the event's own first value)
+    if k >= (NEAR_WALK + FAR_WALK) as u64 && ev.kind != KindC::Absent && !ev.kind.is_ambient() {
+        let mut h = Rng::stream(ev.variant, &[14, 77]);
+        if h.chance(1, 6) {
+            ev.shadow = Some(Shadow { later: *h.pick(&LATERS), chain: *h.pick(&CHAINS) });
+        }
+    }
+    ev
 }
 
 struct Scenario {
@@ -770,7 +903,7 @@ fn generate(seed: u64, case: u64, n_events: u64) -> Scenario {
     let transport = Transport::ALL[(case / 8 % 3) as usize];
     let gzip = case / 24 % 2 == 0;
     // rotate the systematic walk so that different cases start at different classes
-    let walk = (NEAR_WALK + FAR_WALK) as u64;
+    let walk = (NEAR_WALK + FAR_WALK + SHADOW_WALK) as u64;
     let rot = g.below(walk);
     let events = (0..n_events).map(|k| gen_event(&mut g, case * 1_000_000 + k, (k + rot) % n_events.max(walk))).collect();
     Scenario { case, subset, transport, gzip, events }
@@ -880,6 +1013,16 @@ fn run(r: &mut Report, sc: &Scenario, seed: u64) {
             },
             subset_name(sc.subset)
         );
+        // shadowed duplicates: the signature names the first (effective) and the later kind
+        let class = match ev.shadow {
+            Some(sh) => {
+                r.observe("shadowed-kind:events-judged", 1);
+                r.observe(&format!("shadowed-kind:first={}:later={}:chain={}", shadow_first(ev), sh.later_name(), sh.chain_name()), 1);
+                r.nontrivial(&(sc.subset, ev.kind, ev.extent, sh));
+                format!("shadowed-kind:first={}:later={}:chain={}:{}", shadow_first(ev), sh.later_name(), sh.chain_name(), class)
+            }
+            None => class,
+        };
         let names = |v: &[Signal]| v.iter().map(|s| s.name()).collect::<Vec<_>>().join("+");
         let detail = || {
             let mut j = ev.class_json();
@@ -1642,6 +1785,14 @@ fn run_concurrent(r: &mut Report, seed: u64, case: u64, thorough: bool) {
 /// Capacity of each signal's channel inside emit_otlp (`emit_batcher::bounded(10_000)`).
 const QUEUE_CAPACITY: u64 = 10_000;
 
+/// The first `evt_kind` of an event with shadowed duplicates, for signatures.
+fn shadow_first(ev: &Ev) -> &'static str {
+    match kind_family(ev) {
+        "other" => "unknown",
+        f => f,
+    }
+}
+
 fn kind_family(ev: &Ev) -> &'static str {
     if ev.kind.is_span() {
         "span"
@@ -2116,8 +2267,8 @@ fn main() {
          combinations whose event was accounted for at the collector",
     );
     let seed = args.seed;
-    // the systematic walk is 108 near-present classes + 135 far-away-extent classes; the rest of a scenario is drawn
-    let n_events = args.get_u64("events", if args.thorough() { 900 } else { 300 });
+    // the systematic walk is 108 near-present classes + 135 far-away-extent classes + 120 shadowed-duplicate classes; the rest of a scenario is drawn
+    let n_events = args.get_u64("events", if args.thorough() { 900 } else { 420 });
 
     if let Some(path) = &args.replay {
         let case = load_replay(path);
